@@ -191,6 +191,16 @@ def one_violation(prop: str, problems: list[tuple[str, str, str]], h: Any = None
             problems = problems + [("diagnosis", f"the jump from {x['source']} back to {x['target']} re-armed both but left the completed "
                                                  f"stage(s) {x['not_rearmed']} between them untouched (fan-in with an upstream outside "
                                                  f"the re-armed set): nothing restarts {x['source']}", "")]
+    skipovertaken: list[str] = []
+    if h is not None:
+        from sim.oracles import skip_overtaken
+
+        so = skip_overtaken(h)
+        if so:
+            skipovertaken = so
+            sig += "<-startstage-overtook-skipstage"
+            problems = problems + [("diagnosis", f"stage(s) {so} started while the SkipStage that an OR-split had queued for them was still "
+                                                 f"in the queue: the deactivated branch ran", "")]
     rearmedchild: list[str] = []
     if h is not None and fs is not None:
         from sim.oracles import rearmed_after_children
@@ -202,4 +212,4 @@ def one_violation(prop: str, problems: list[tuple[str, str, str]], h: Any = None
             problems = problems + [("diagnosis", f"a jump re-armed the after / on-failure stage(s) {rc} of a stage that later failed again: "
                                                  f"CompleteStage takes the NOT_STARTED leftovers for children in flight and waits for them", "")]
     msg = " || ".join(f"{c}: {m}" for c, m, _ in problems)
-    return [V(prop, cls, msg, rearmedchild=rearmedchild, sig=sig, classes=[c for c, _, _ in problems], stale=stale, planlost=planlost, jumppath=jumppath, sweepwindow=sweepwindow, tails=tails)]
+    return [V(prop, cls, msg, rearmedchild=rearmedchild, skipovertaken=skipovertaken, sig=sig, classes=[c for c, _, _ in problems], stale=stale, planlost=planlost, jumppath=jumppath, sweepwindow=sweepwindow, tails=tails)]
